@@ -7,6 +7,7 @@ package main
 import (
 	"fmt"
 	"os"
+	"os/exec"
 	"sort"
 	"strings"
 	"sync"
@@ -433,6 +434,45 @@ func checkC18(replay string) {
 				opt = "exclude-checks"
 			}
 			r.Violate("config/resolution/"+opt, fmt.Sprintf("%s\nreference resolution: %+v\n%s", desc, want, strings.Join(diff, "\n")), map[string]string{"argv.txt": desc})
+		}
+		// the same configuration through the vet driver (environment and -config.* flags are handed to the vet tool)
+		if i%12 == 0 && c.noTestFile {
+			cmd := exec.Command("go", append(append([]string{"vet", "-json", "-vettool=" + ggrun.Bin}, args...), "./...")...)
+			cmd.Dir = root
+			for _, kv := range os.Environ() {
+				if !strings.HasPrefix(kv, "GOGREEMENT_") {
+					cmd.Env = append(cmd.Env, kv)
+				}
+			}
+			cmd.Env = append(cmd.Env, env...)
+			out, verr := cmd.CombinedOutput()
+			vd, verrs := ggrun.ParseJSON(string(out), root)
+			r.Eval(1)
+			if verr != nil || len(verrs) > 0 || strings.Contains(string(out), "panic:") {
+				r.Violate("config/vet-driver-failed", fmt.Sprintf("%s: go vet -vettool: %v %v\n%s", desc, verr, verrs, head(string(out), 1500)), nil)
+			} else {
+				vgot := map[string]bool{}
+				for _, d := range vd {
+					for _, p := range plants {
+						if d.File == p.file && d.Line == p.line && d.Code == p.code {
+							vgot[p.id] = true
+						}
+					}
+				}
+				var vdiff []string
+				for _, p := range plants {
+					if p.file == "p/p_test.go" {
+						continue
+					}
+					if exp[p.id] != vgot[p.id] {
+						vdiff = append(vdiff, fmt.Sprintf("%s: expected visible=%v, vet driver=%v", p.id, exp[p.id], vgot[p.id]))
+					}
+				}
+				if len(vdiff) > 0 {
+					r.Violate("config/resolution-vet-driver", fmt.Sprintf("%s (go vet -vettool)\nreference resolution: %+v\n%s", desc, want, strings.Join(vdiff, "\n")), nil)
+				}
+				r.Count("configurations_also_run_through_go_vet", 1)
+			}
 		}
 		ks := []string{}
 		for k := range got {
